@@ -7,6 +7,11 @@ set -u
 ID=$1; PROP=$2; SRC=$3; PKG=$4; NEEDS=${5:-}
 V=/tmp/wt/verify_$ID
 export GOFLAGS=-mod=mod GOPROXY=off
+mkdir -p /tmp/wt
+if [ ! -d /tmp/pbgen_out/proto ]; then
+  # generated protobuf code (not part of the repository) for building the worktree
+  mkdir -p /tmp/pbgen_out && (cd /repo && /verif/bin/pbgen /repo /tmp/pbgen_out /verif/bin $(git ls-files '*.proto')) || exit 2
+fi
 rm -rf $V; git -C /repo worktree remove --force $V 2>/dev/null
 git -C /repo worktree add --detach $V HEAD >/dev/null 2>&1 || exit 2
 cp -r /tmp/pbgen_out/* $V/
